@@ -165,6 +165,11 @@ impl ValueRef {
         match value {
             Value::Null => ValueRef::Null,
             Value::Int(number) => ValueRef::Int(number),
+            // The file format has a single value for both null and the empty
+            // string (string reference zero); the string pool cannot hold a
+            // live empty entry (a zero length with a nonzero refcount is the
+            // marker for a string longer than 64 KiB).
+            Value::Str(string) if string.is_empty() => ValueRef::Null,
             Value::Str(string) => ValueRef::Str(string_pool.incref(string)),
         }
     }
